@@ -7,8 +7,8 @@ ID = "C13"
 GEN = ["Units"]          # number == goes through Model.Numeric, whose tables are regenerated from unit.rs
 THEOREMS = ["C13_inv", "C13_literal_dup", "C13_lookup", "C13_has_key", "C13_set_get", "C13_set_shape",
             "C13_set_others", "C13_remove", "C13_merge_keys", "C13_merge_get", "C13_pool_equiv", "C13_pool_merge_get",
-            "C13_refines_set", "C13_refines_remove", "C13_refines_literal",
-            "C13_eq_sound_partial", "C13_refuted_eq_order", "C13_refuted_set_path_order"]
+            "C13_refines_set", "C13_refines_remove", "C13_refines_literal", "C13_set_path_keys",
+            "C13_map_eq_is_om_eq", "C13_eq_spec", "C13_eq_order_left", "C13_eq_order_right", "C13_pool_eq_order"]
 COQ_HEADER = ("From Coq Require Import String List NArith ZArith.\nFrom RV Require Import Run.C13.\n"
               "Import ListNotations.\nLocal Open Scope list_scope.")
 RUN_EXPR = "Run.C13.run"
@@ -111,8 +111,8 @@ def rand_prog(rng, maxops=8):
 
 
 CORPUS = [
-    {"init": [[13, 0], [16, 1]], "ops": [["eq", [[16, 1], [13, 0]]], ["eq", [[14, 0], [17, 1]]]]},      # F20
-    {"init": [[13, 7], [16, 1]], "ops": [["set", [13, 16], 2]]},                                         # nested set moves the key
+    {"init": [[13, 0], [16, 1]], "ops": [["eq", [[16, 1], [13, 0]]], ["eq", [[14, 0], [17, 1]]]]},      # former F20 witness
+    {"init": [[13, 7], [16, 1]], "ops": [["set", [13, 16], 2]]},                                         # former F30 witness
     {"init": [[13, 0], [14, 1]], "ops": [["keys"]]},                                                     # duplicate literal
     {"init": [[6, 0]], "ops": [["get", 7], ["has", 9], ["set", [7], 1], ["merge", [[9, 2], [8, 0]]], ["remove", [7, 8]]]},
     {"init": [], "ops": [["merge", []], ["eq", []], ["set", [0], 0], ["remove", [1]], ["eq", []]]},
@@ -236,7 +236,7 @@ def coq_term(c, io):
     return f"(mkCase {cpairs(c['init'])} {clist([op_term(o) for o in c['ops']])} {impl})"
 
 
-KCLASS = {0: None, 1: "known_C13_K1_map_eq_order", 2: "known_C13_K2_set_path_moves_key"}
+KCLASS = {0: None}
 
 
 def nontrivial(c):
@@ -280,6 +280,7 @@ LEVEL_TEXT = ("proof: ordermap.rs modelled over an abstract key equality; NoDupK
               "operation sequences; first-match lookup, set/get, merge key order and values, refinement of every operation "
               "to a find/filter reference semantics under an equivalence hypothesis on the keys involved, discharged for "
               "the 33-value key pool by a vm_compute sweep; model tied to rsass by byte-exact inspect() traces of random programs")
-LEVEL_NOTE = ("map equality is order sensitive (F20) and map.set with a key path moves the key last: refuted clauses with "
-              "witnesses, recorded as known findings; deep-merge/deep-remove and multi-key get are outside the model")
+LEVEL_NOTE = ("F20 (order-sensitive map equality) and F30 (map.set with a key path moved the key) were fixed in /repo by 0a747ec and "
+              "bedae15; the equality law is now proved (spec + permutation invariance); deep-merge/deep-remove and multi-key "
+              "get are outside the model")
 TECHNIQUE = "Coq proof (induction, invariant over op sequences, refinement, pool sweep) + differential correspondence on SCSS programs"
